@@ -338,11 +338,21 @@ class power_plant_entering_temperature(Contract):
     params = dict(self=Const(None), enduse_option=Const(None), timevector=NdOf("real"), T_chp_bottom=Real,
                   ProducedTemperature=NdOf("real"))
     result = NdOf("real")
+    property_ids = ("C02",)     # verified, not only assumed at its call sites
+
+    def configs(self):
+        from geophires_x.OptionList import EndUseOptions
+        return [(f"enduse={e.int_value}", {"enduse_option": e}) for e in EndUseOptions]
 
     def ensures(self, s, r):
         e = s.enduse_option.val.int_value
         n = Len(s.timevector) if e in (41, 42) else Len(s.ProducedTemperature)
-        return {"length": Len(r) == n}
+        out = {"length": Len(r) == n}
+        if e in (41, 42):
+            out["bottoming_cycle_enters_at_the_chp_bottom_temperature"] = ForAll(0, n, lambda i: r[i] == s.T_chp_bottom)
+        else:
+            out["enters_at_the_production_temperature"] = ForAll(0, n, lambda i: r[i] == s.ProducedTemperature[i])
+        return out
 
 
 @contract
@@ -350,6 +360,7 @@ class availability_water(Contract):
     key = "geophires_x/SurfacePlant.py::SurfacePlant.availability_water"
     params = dict(self=Const(None), T0=Real, T1=NdOf("real"), T2=Real)
     result = NdOf("real")
+    property_ids = ("C02",)     # verified, not only assumed at its call sites
 
     def ensures(self, s, r):
         return {"length": Len(r) == Len(s.T1)}
@@ -362,6 +373,10 @@ class reinjection_temperature(Contract):
                   C01=Real, C11=Real, C21=Real, D01=Real, D11=Real, D21=Real,
                   C02=Real, C12=Real, C22=Real, D02=Real, D12=Real, D22=Real)
     result = (Real, NdOf("real"), NdOf("real"))
+    property_ids = ("C02",)     # verified, not only assumed at its call sites
+
+    def requires(self, s):
+        return {"nonempty": Len(s.TenteringPP) >= 1}
 
     def ensures(self, s, r):
         tinj, reinj, etau = r
